@@ -117,7 +117,9 @@ def wrapper_table(vendor, model, do_commit, do_finalize):
 def bound_text(tier):
     n = 4 if tier == "quick" else 5
     return ("S: forests <= %d nodes, depth <= 4, %d block vendors + %d flattening vendors; R: grammar families F1-F5 + "
-            "force_commit family with universes <= 16; D: deploy grammar (<=3 rules, depth <=2) x all trees <= 3 nodes"
+            "force_commit family with universes <= 16; D: deploy grammar (<=3 rules, depth <=2) x all trees <= 3 nodes; "
+            "K: 192 corpus samples; J: the same through CliDeployerJob.parse_result x {acl_safe} x {dont_commit}; "
+            "E: the same end to end (annet patch worker vs deploy job fed by annet.gen.old_new)"
             % (n, len(BLOCK_VENDORS), len(FLAT_VENDORS)))
 
 
